@@ -198,3 +198,75 @@ func genStreamOp(rngIntn func(int) int) string {
 	}
 	return "ws.run script=" + strings.Join(toks, ",")
 }
+
+// ---- range scan: every call completes (its result channel is closed), whatever fails ----
+
+type rsExec struct {
+	scripts []string // per shard: "e" = the request fails; "k1+k2" records then end of stream; "k1+x" records then an error
+}
+
+func (e *rsExec) ExecuteWrite(context.Context, *proto.WriteRequest) (*proto.WriteResponse, error) {
+	return nil, errors.New("not used")
+}
+func (e *rsExec) ExecuteRead(context.Context, *proto.ReadRequest) (proto.OxiaClient_ReadClient, error) {
+	return nil, errors.New("not used")
+}
+func (e *rsExec) ExecuteList(context.Context, *proto.ListRequest) (proto.OxiaClient_ListClient, error) {
+	return nil, errors.New("not used")
+}
+func (e *rsExec) ExecuteRangeScan(ctx context.Context, r *proto.RangeScanRequest) (proto.OxiaClient_RangeScanClient, error) {
+	s := ""
+	if int(*r.Shard) < len(e.scripts) {
+		s = e.scripts[*r.Shard]
+	}
+	if s == "e" {
+		return nil, errors.New("shard unavailable")
+	}
+	var items []string
+	if s != "" && s != "_" {
+		items = strings.Split(s, "+")
+	}
+	return &rsStream{ctx: ctx, items: items}, nil
+}
+
+type rsStream struct {
+	ctx   context.Context
+	items []string
+}
+
+func (s *rsStream) Recv() (*proto.RangeScanResponse, error) {
+	if len(s.items) == 0 {
+		return nil, io.EOF
+	}
+	it := s.items[0]
+	s.items = s.items[1:]
+	if it == "x" {
+		return nil, errors.New("stream broken")
+	}
+	return &proto.RangeScanResponse{Records: []*proto.GetResponse{{Status: proto.Status_OK, Key: &it, Value: []byte("v"), Version: &proto.Version{}}}}, nil
+}
+func (s *rsStream) Header() (metadata.MD, error) { return nil, nil }
+func (s *rsStream) Trailer() metadata.MD         { return nil }
+func (s *rsStream) CloseSend() error             { return nil }
+func (s *rsStream) Context() context.Context     { return s.ctx }
+func (s *rsStream) SendMsg(any) error            { return errors.New("not used") }
+func (s *rsStream) RecvMsg(any) error            { return errors.New("not used") }
+
+// rs.run single=0|1 shards=a+b;e;c+x
+func c20RangeScan(kv map[string]string) string {
+	scripts := strings.Split(kv["shards"], ";")
+	res, closed := oxia.VerifRangeScan(&rsExec{scripts: scripts}, len(scripts), kv["single"] == "1", 1500*time.Millisecond)
+	hasErr := false
+	n := 0
+	for _, r := range res {
+		if r.Err != nil {
+			hasErr = true
+		} else {
+			n++
+		}
+	}
+	if hasErr {
+		return fmt.Sprintf("closed=%v err=true", closed)
+	}
+	return fmt.Sprintf("closed=%v err=false n=%d", closed, n)
+}
